@@ -52,6 +52,7 @@ typedef struct {
 	int ret;
 	sqfs_u8 vk;	/* payload reads: the byte delivered at position g_k */
 	sqfs_u64 val;	/* small reads: first (up to) 8 bytes delivered, LE */
+	sqfs_u64 val_hi;	/* small reads: bytes 8..15 */
 } env_read_rec_t;
 
 typedef struct {
@@ -124,6 +125,11 @@ static void env_init(void)
 #endif
 #ifndef ENV_ON_MEMCPY		/* (dst, src, n); may set g_e.cpy_handled */
 #define ENV_ON_MEMCPY(d, s, n) ((void)0)
+#endif
+
+/* (buffer, size, index of this read): constrain / fix a tag of a small record */
+#ifndef ENV_FIXUP
+#define ENV_FIXUP(b, n, idx) ((void)0)
 #endif
 
 /* A harness whose payload buffer is reached through an expression CBMC
@@ -218,15 +224,21 @@ static int stub_read_at(sqfs_file_t *file, sqfs_u64 offset,
 	/* determinism of the image (small reads only; a payload read is
 	   identified by its log entry: offset, length, byte at g_k) */
 	if (!ENV_IS_PAYLOAD(buffer, size)) {
-		sqfs_u64 val = 0;
+		sqfs_u64 val = 0, val_hi = 0;
 
 		if (g_img_off >= offset && g_img_off - offset < size)
 			b[g_img_off - offset] = g_img_val;
+		ENV_FIXUP(b, size, g_rd_n);
 #define ENV_V1(i) if ((size_t)(i) < size) val |= (sqfs_u64)b[i] << (8 * (i));
 		ENV_V1(0) ENV_V1(1) ENV_V1(2) ENV_V1(3)
 		ENV_V1(4) ENV_V1(5) ENV_V1(6) ENV_V1(7)
-		if (g_rd_n < ENV_LOG)
+#define ENV_V2(i) if ((size_t)(i) < size) val_hi |= (sqfs_u64)b[i] << (8 * ((i) - 8));
+		ENV_V2(8) ENV_V2(9) ENV_V2(10) ENV_V2(11)
+		ENV_V2(12) ENV_V2(13) ENV_V2(14) ENV_V2(15)
+		if (g_rd_n < ENV_LOG) {
 			g_rd[g_rd_n].val = val;
+			g_rd[g_rd_n].val_hi = val_hi;
+		}
 	}
 	if (g_rd_n < ENV_LOG)
 		g_rd[g_rd_n].ret = 0;
